@@ -108,3 +108,48 @@ func VerifC11History(k int) {
 		check()
 	}
 }
+
+// VerifC11Atomic: two admin operations (or an admin operation and traffic)
+// run concurrently; once both have returned the backend set must be what some
+// sequential order of the two produces: an add that returned is listed, a
+// remove that returned is not.
+func VerifC11Atomic(pair int) {
+	lb := verifBareLB(0)
+	for i := 0; i < 2; i++ {
+		lb.strategy.AddBackend(verifBackend(i))
+	}
+	has := func(name string) bool {
+		for _, in := range lb.ListBackends() {
+			if in.Name == name {
+				return true
+			}
+		}
+		return false
+	}
+	switch pair {
+	case 0: // strategy switch || add
+		verifrt.Go(func() { lb.SetStrategy("least_connections") })
+		verifrt.Go(func() { lb.AddBackend(config.BackendConfig{Name: "n", Address: "http://n:80"}) })
+		verifrt.WaitAll()
+		verifrt.Assert(has("n"), "an add that returned is listed, whatever ran concurrently")
+		verifrt.Assert(has("b0") && has("b1") && len(lb.ListBackends()) == 3, "a strategy switch keeps exactly the same backends")
+	case 1: // strategy switch || remove
+		verifrt.Go(func() { lb.SetStrategy("weighted_round_robin") })
+		verifrt.Go(func() { lb.RemoveBackend("b0") })
+		verifrt.WaitAll()
+		verifrt.Assert(!has("b0"), "a remove that returned is not listed, whatever ran concurrently")
+		verifrt.Assert(has("b1") && len(lb.ListBackends()) == 1, "a strategy switch keeps exactly the same backends")
+	case 2: // add || remove of different names
+		verifrt.Go(func() { lb.AddBackend(config.BackendConfig{Name: "n", Address: "http://n:80"}) })
+		verifrt.Go(func() { lb.RemoveBackend("b0") })
+		verifrt.WaitAll()
+		verifrt.Assert(has("n") && !has("b0") && has("b1"), "concurrent add and remove both take effect")
+	case 3: // strategy switch || strategy switch
+		verifrt.Go(func() { lb.SetStrategy("ip_hash") })
+		verifrt.Go(func() { lb.SetStrategy("least_connections") })
+		verifrt.WaitAll()
+		verifrt.Assert(has("b0") && has("b1") && len(lb.ListBackends()) == 2, "concurrent strategy switches keep exactly the same backends")
+	}
+	b := lb.findHealthyBackend(verifRequest("10.1.2.3:4711"))
+	verifrt.Assert(b != nil && has(b.Name), "requests after the change are served by a listed backend")
+}
